@@ -91,9 +91,41 @@ def _load_corpus():
     return [json.loads(f.read_text()) for f in files]
 
 
+def _struct(rng):
+    nn = rng.choice([3, 4, 4, 5])
+    e, lab = GE.struct_expr(rng, nn)
+    return e, nn, lab
+
+
+def structured_cases(rng: random.Random, n: int):
+    """pool-based structured stream (gen_expr.struct_*): compound fractions whose division cross-multiplies into x/x,
+    x/1, 1/x; equal numerator and denominator in different presentations; products that only appear after canonicalising
+    a factor; factors tying on the first child name; variables sharing a name across worlds; repeated factors; Sums over
+    joint leaves in every range mode.  Each once for idempotence and once against a presentation shuffle."""
+    out = []
+    # systematic head: every ratio target x flavour
+    for target in ("xx", "x1", "1x", "shared", "repeat", "general"):
+        for flavour in ("mixed", "samefirst", "worlds"):
+            for _ in range(max(1, n // 400)):
+                nn = rng.choice([3, 4, 4, 5])
+                e, lab = GE.struct_ratio(rng, nn, flavour=flavour, target=target)
+                o = _ordering_for(rng, e, nn)
+                out.append({"kind": "idem", "e": e, "ordering": o, "gen": lab})
+                out.append({"kind": "perm", "e": e, "e2": GE.present_shuffle(rng, e), "ordering": o, "gen": lab})
+    while len(out) < n:
+        e, nn, lab = _struct(rng)
+        o = _ordering_for(rng, e, nn)
+        if rng.random() < 0.45:
+            out.append({"kind": "idem", "e": e, "ordering": o, "gen": lab})
+        else:
+            out.append({"kind": "perm", "e": e, "e2": GE.present_shuffle(rng, e), "ordering": o, "gen": lab})
+    return out
+
+
 def cases(rng: random.Random, tier: str):
     out = _load_corpus()
-    n = 9000 if tier == "quick" else 60000
+    out += structured_cases(rng, 4000 if tier == "quick" else 20000)
+    n = 4000 if tier == "quick" else 40000
     for _ in range(n):
         e, cfg = _gen(rng)
         o = _ordering_for(rng, e, cfg.n_names)
@@ -103,11 +135,15 @@ def cases(rng: random.Random, tier: str):
             out.append({"kind": "perm", "e": e, "e2": GE.present_shuffle(rng, e), "ordering": o})
     nb = 8 if tier == "quick" else 16
     seeds = [0, 1, 2] if tier == "quick" else list(range(16))
-    for _ in range(nb):
+    for b in range(nb):
         batch = []
         for _ in range(40):
-            e, cfg = _gen(rng)
-            batch.append([e, _ordering_for(rng, e, cfg.n_names)])
+            if b % 2 == 0:
+                e, cfg = _gen(rng)
+                nn = cfg.n_names
+            else:
+                e, nn, _lab = _struct(rng)
+            batch.append([e, _ordering_for(rng, e, nn)])
         out.append({"kind": "seeds", "batch": batch, "hashseeds": seeds, "shuffle": rng.randrange(1 << 30)})
     return out
 
@@ -140,13 +176,20 @@ def _interesting(enc):
     return False
 
 
+def _feat_tags(case):
+    t = {"gen": case.get("gen", "random").split(":")[0]}
+    for f in GE.features(case["e"], case["ordering"]):
+        t["hit_" + f] = True
+    return t
+
+
 def run_python(case):
     from y0.mutate import canonicalize
 
     kind = case["kind"]
     if kind == "idem":
         c1, err = _canon(case["e"], case["ordering"])
-        tags = {"kind": kind, "well_scoped": GE.well_scoped(case["e"]), "depth": GE.depth(case["e"])}
+        tags = {"kind": kind, "well_scoped": GE.well_scoped(case["e"]), "depth": GE.depth(case["e"]), **_feat_tags(case)}
         if c1 is None:
             return {"out": ["err"], "fail": None, "nontrivial": False, "tags": {**tags, "outcome": "err"}}
         o = [X.dec_var(v) for v in case["ordering"]]
@@ -165,7 +208,7 @@ def run_python(case):
         c1, e1 = _canon(case["e"], case["ordering"])
         c2, e2 = _canon(case["e2"], case["ordering"])
         tags = {"kind": kind, "well_scoped": GE.well_scoped(case["e"]), "depth": GE.depth(case["e"]),
-                "shuffled": case["e"] != case["e2"]}
+                "shuffled": case["e"] != case["e2"], **_feat_tags(case)}
         fail = None
         if c1 is None and c2 is None:
             out = ["err"]
